@@ -409,9 +409,12 @@ META = {
                 'admissible sequence of the taut class (edges passing inValidRegion, bends passing validateBendPoint; states (previous vertex, '
                 'vertex) as ANode; 2*penalty for a reversal); the floor-sqrt lengths obey the triangle inequality up to 1e-12 per segment '
                 '(admissible straight-line heuristic); the cpp2v-generated inValidRegion equals the spec decider used for pruning. Tie: on every '
-                'run the cost of the implementation\'s displayRoute equals the extracted model optimum to 1e-6 (penalties 0, 1, 10; buffer 0 and, '
-                'for rectangles, > 0) and the compiled validateBendPoint equals its spec decider on an exhaustive grid; a second stream routes several connectors with '
-                'exactly coincident endpoints and compares again after every later transaction that moves / adds / resizes / deletes shapes (incremental visibility).',
+                'run the cost of the implementation\'s displayRoute equals the extracted model optimum to 1e-6 (penalties 0, 1, 10 and - scenes at scales 1, 4, 12 - '
+                '100, 400, 1000; buffer 0 and, for rectangles, > 0) and the compiled validateBendPoint equals its spec decider on an exhaustive grid; a second stream '
+                'routes several connectors with exactly coincident endpoints and compares again after every later transaction that moves / adds / resizes / deletes '
+                'shapes (incremental visibility); a directed family "corner reachable both ways round its obstacle" keeps the scenes on which the extracted '
+                '(previous vertex, vertex) search and the extracted vertex-only search differ (C04_vertex_only_search_refuted: the state is necessary), i.e. where '
+                'the optimal route needs an arrival at a corner that is not the cheapest one (penalties 30, 100, 400, 1000).',
         'design_ref': 'DESIGN.md 5.4'},
     'level_note': 'partial: proof on the model. The certifying Dijkstra is proved total (cert_dijkstra_total: never Fail for in-range, non-negative, '
                   'non-parallel edges; route_plain_total / route_taut_total; SearchFail is still reported if it occurs); libavoid\'s A* and the rotational '
